@@ -255,6 +255,10 @@ class EvalMixin(InterpBase):
             self.trusted.add("numpy: a.T of a 2-D array: out[k][f] = a[f][k]")
             return NdV((base.shape[1], base.shape[0]), lambda idx, a=base: a.fn((idx[1], idx[0])), base.dtype)
         if isinstance(base, (ListV, DictV, tuple, IterV, NdV, RegexV, MatchV)) or is_strv(base):
+            real = (list if isinstance(base, ListV) else dict if isinstance(base, DictV) and not isinstance(base, SetV) else set if isinstance(base, SetV)
+                    else tuple if isinstance(base, tuple) else str if is_strv(base) else None)
+            if real is not None and not hasattr(real, name):
+                raise Unsupported(f"{real.__name__} object has no attribute {name}")       # AttributeError in Python
             return BoundMethod(base, "builtin." + name)
         if isinstance(base, ExcV):
             return Opaque(("excattr", name))
